@@ -97,6 +97,10 @@ def _atoms(env):
     return out[:400]
 
 
+class NotEvaluable(Exception):
+    pass
+
+
 def spec_namespace(env, extra=None):
     bound = _sizes(env) + 2
     universe = None
@@ -113,7 +117,7 @@ def spec_namespace(env, extra=None):
                 doms.append(range(-2, bound + 1))
         return itertools.product(*doms)
 
-    def forall(lam):
+    def forall(lam, trigger=None):
         for xs in _range_for(lam):
             try:
                 if not lam(*xs):
@@ -124,13 +128,18 @@ def spec_namespace(env, extra=None):
                 raise
         return True
 
-    def exists(lam):
+    def exists(lam, trigger=None):
+        typed = any(isinstance(p.default, _Sort) for p in inspect.signature(lam).parameters.values())
         for xs in _range_for(lam):
             try:
                 if lam(*xs):
                     return True
             except (IndexError, KeyError, AttributeError):
                 continue
+        if typed:
+            # no witness among the values that occur in the call: the finite universe of a sort-typed variable (strings, objects) is not the
+            # sort, so this says nothing - the clause is "not evaluable" on this call, not false
+            raise NotEvaluable("existential over a sort: no witness among the values of this call")
         return False
 
     def _eq(a, b):
@@ -243,7 +252,9 @@ def conforms(value, spec):
     if isinstance(ty, TSeq):
         if ty.nodup:
             return not isinstance(value, (str, Mapping))
-        return isinstance(value, (list, tuple)) and all(conforms(x, ty.elem) for x in list(value)[:20])
+        from collections.abc import Sequence as _Seq
+
+        return isinstance(value, _Seq) and not isinstance(value, str) and all(conforms(x, ty.elem) for x in list(value)[:20])
     if isinstance(ty, TDict):
         return isinstance(value, Mapping)
     if isinstance(ty, TSet):
